@@ -151,7 +151,7 @@ func init() {
 	register(&fw.Check{
 		ID:    "C06",
 		Level: "exploration",
-		Rule: "bases = the 40-string base menu and the slot product with <=2 deviating slots; references = '', '#f' and '?q' for every f, q of Sigma^<=2, every scheme-less reference of (Sigma minus ':')^<=k, and the serialization of every parsed base (B x B). " +
+		Rule: "bases = the 40-string base menu and the slot product with <=2 deviating slots; references = '', '#f' and '?q' for every f, q of Sigma^<=2, every scheme-less reference of (Sigma minus ':')^<=k, references spelling out the base's own scheme (scheme: + Sigma^<=1), and the serialization of every parsed base (B x B). " +
 			"Model-free relational oracles: url.ParseRef, Parser.ParseRef and (*Url).Parse agree on error-ness and all observables, also when the base value has been used read-only before (parameter list inspected, earlier resolutions); Href(u) resolves to u against any base; '' gives the base without fragment; '#f' changes only the fragment and is the only relative reference an opaque-path base accepts; '?q' keeps scheme/credentials/host/port/path and drops the fragment; scheme-less references keep the base's scheme. " +
 			"non-trivial = (base, reference) pairs whose resolution succeeds",
 		Assume:  []string{"implementation against itself: no reference model involved"},
@@ -216,6 +216,14 @@ func init() {
 					kk = k - 1 // product bases: one symbol less than the menu bases in the quick tier
 				}
 				enum.Raw(noColon, kk, func(s []byte) { run("shapes", b, string(s), "schemeless") })
+				// references that spell out the base's own scheme (special-relative / file-state entry points):
+				// only agreement and repeatability are demanded
+				if i := strings.Index(b, ":"); i > 0 {
+					sch := b[:i+1]
+					enum.Raw(enum.General, 1, func(s []byte) { run("shapes", b, sch+string(s), "any") })
+					run("shapes", b, sch+"d/e", "any")
+					run("shapes", b, sch+"../x", "any")
+				}
 			}
 			c.Space("absolute-vs-any-base")
 			stride := 1
